@@ -262,8 +262,8 @@ func (s *sim) recTok(r *workflow.Record) string {
 	if desc == "" {
 		desc = "?"
 	}
-	return fmt.Sprintf("%d.%d.%d.%d.%s.%d.%d.%s", s.runN(r.RunID), int(r.RunState), r.Status, r.Meta.Version, objTok(r.Object),
-		s.ns(r.CreatedAt), s.ns(r.UpdatedAt), desc)
+	return fmt.Sprintf("%d.%d.%d.%d.%s.%d.%d.%s.%d", s.runN(r.RunID), int(r.RunState), r.Status, r.Meta.Version, objTok(r.Object),
+		s.ns(r.CreatedAt), s.ns(r.UpdatedAt), desc, fidN(r.ForeignID))
 }
 
 func topicTok(t string) string {
@@ -677,6 +677,7 @@ var (
 	reStep = regexp.MustCompile(`^wf-(-?\d+)-consumer-(\d+)-of-(\d+)$`)
 	rePoll = regexp.MustCompile(`^wf-(-?\d+)-timeout-consumer$`)
 	reIns  = regexp.MustCompile(`^wf-(-?\d+)-timeout-auto-inserter-consumer$`)
+	reSched = regexp.MustCompile(`^wf-f(\d+)-scheduler-`)
 	reHook = regexp.MustCompile(`^wf-(paused|cancelled|completed)-run-state-change-hook-consumer$`)
 )
 
@@ -697,6 +698,9 @@ func parseRole(role string) string {
 	}
 	if m := reIns.FindStringSubmatch(role); m != nil {
 		return "i" + m[1]
+	}
+	if m := reSched.FindStringSubmatch(role); m != nil {
+		return "c" + m[1]
 	}
 	if m := reHook.FindStringSubmatch(role); m != nil {
 		return map[string]string{"paused": "h3", "cancelled": "h4", "completed": "h5"}[m[1]]
